@@ -196,7 +196,7 @@ impl<'input> Parser<'input> {
     /// This is the expected format of the string value of the `type` argument
     /// of some directives like [`@field`](https://specs.apollo.dev/join/v0.3/#@field).
     pub fn parse_type(mut self) -> SyntaxTree<Type> {
-        grammar::ty::ty(&mut self);
+        grammar::ty::standalone_ty(&mut self);
 
         let builder = Rc::try_unwrap(self.builder)
             .expect("More than one reference to builder left")
@@ -211,6 +211,17 @@ impl<'input> Parser<'input> {
                 unreachable!("parse_type constructor can only construct a type")
             }
         }
+    }
+
+    /// Start a node that is the root of the tree: tokens that are still pending
+    /// are attached inside the new node instead of to a (nonexistent) parent.
+    pub(crate) fn start_root_node(&mut self, kind: SyntaxKind) -> NodeGuard {
+        self.builder.borrow_mut().start_node(kind);
+        let guard = NodeGuard::new(self.builder.clone());
+        self.push_ignored();
+        self.skip_ignored();
+
+        guard
     }
 
     /// Check if the current token is `kind`.
